@@ -1101,6 +1101,84 @@ func runIndexGuard(p *Program, r *Report, a *verifyAnchors) {
 	}
 	r.Stats["index.sites"] = n
 	r.Floor("R04e", "counter-indexed reads of caller-supplied slices", n, 2)
+
+	// In the two matching verifiers every computed index is examined, also on
+	// slices derived from the core's results: these functions run on whatever the
+	// core produced from untrusted input.
+	m := 0
+	for _, fn := range []*ssa.Function{a.verify, a.pollardVerify} {
+		if fn == nil {
+			continue
+		}
+		name := p.FuncName(fn)
+		ord := map[string]int{}
+		for _, b := range fn.Blocks {
+			for _, in := range b.Instrs {
+				ia, ok := in.(*ssa.IndexAddr)
+				if !ok {
+					continue
+				}
+				if _, isSlice := ia.X.Type().Underlying().(*types.Slice); !isSlice {
+					continue
+				}
+				if _, isConst := ia.Index.(*ssa.Const); isConst {
+					continue
+				}
+				if callerSuppliedSlice(fn, ia.X, supplied[fn]) != "" {
+					continue // handled above
+				}
+				if al, ok := ia.X.(*ssa.Slice); ok {
+					if _, isAlloc := al.X.(*ssa.Alloc); isAlloc {
+						continue // varargs / literal backing array
+					}
+				}
+				src := exprName(ia.X)
+				m++
+				ord[src]++
+				key := fmt.Sprintf("%s/local:%s[%d]", name, src, ord[src])
+				if derivesFrom(ia.Index, func(v ssa.Value) bool { s, ok := lenArg(v); return ok && sameValue(s, ia.X) }, 6) {
+					r.Discharge("R04e", key, posOf(p, ia), "index is computed from the slice's own length", true)
+					continue
+				}
+				gs := guardsAtInstr(ia)
+				isIdx := func(v ssa.Value) bool {
+					if v == ia.Index || sameValue(v, ia.Index) {
+						return true
+					}
+					// the same length taken twice: len(x) ... len(x), x not reassigned in between (SSA value)
+					a1, ok1 := lenArg(v)
+					a2, ok2 := lenArg(ia.Index)
+					return ok1 && ok2 && (a1 == a2 || sameValue(a1, a2))
+				}
+				isLenSame := func(v ssa.Value) bool { s, ok := lenArg(v); return ok && sameValue(s, ia.X) }
+				isLenAny := func(v ssa.Value) bool { _, ok := lenArg(v); return ok }
+				if _, ok := holdsRel(gs, []token.Token{token.LSS}, isIdx, isLenSame); ok {
+					r.Discharge("R04e", key, posOf(p, ia), "index < len("+src+") holds on a dominating branch edge", true)
+				} else if boundedByLoopLen(ia.Index) {
+					r.Discharge("R04e", key, posOf(p, ia), "index is a loop counter bounded by a length", true)
+				} else if g, ok := holdsRel(gs, []token.Token{token.LSS}, isIdx, isLenAny); ok {
+					rel, _ := relOf(g)
+					other := rel.Y
+					if isLenAny(rel.X) {
+						other = rel.X
+					}
+					isOther := func(v ssa.Value) bool {
+						a1, ok1 := lenArg(v)
+						a2, ok2 := lenArg(other)
+						return ok1 && ok2 && sameValue(a1, a2)
+					}
+					if _, ok := holdsRel(gs, []token.Token{token.GEQ, token.EQL, token.GTR}, isLenSame, isOther); ok {
+						r.Discharge("R04e", key, posOf(p, ia), "index is bounded by the length of a parallel slice and a dominating test relates the two lengths", true)
+					} else {
+						r.Violate("R04e", key, posOf(p, ia), src+" is indexed by a value only bounded by the length of another slice, and no dominating test relates the two lengths: on an adversarial proof the core can produce lists of different lengths and the verifier panics", "in "+name)
+					}
+				} else {
+					r.Violate("R04e", key, posOf(p, ia), src+" is indexed by a value that no dominating test bounds by its length: the verifier can panic on an untrusted proof", "in "+name)
+				}
+			}
+		}
+	}
+	r.Floor("R04e", "computed indexes in the matching verifiers", m, 4)
 }
 
 // suppliedParams computes the (function, parameter) pairs that carry values
